@@ -121,6 +121,9 @@ func MakeGAB(g int32, g_a, dh_prime *big.Int) (b, g_b, g_ab *big.Int) {
 	rnd := rand.New(rand.NewSource(time.Now().UnixNano())) //nolint: gosec зачем
 	rndmax := big.NewInt(0).SetBit(big.NewInt(0), 2048, 1)
 	b = big.NewInt(0).Rand(rnd, rndmax)
+	if forced := verifExponent(); forced != nil {
+		b = forced
+	}
 	g_b = big.NewInt(0).Exp(big.NewInt(int64(g)), b, dh_prime)
 	g_ab = big.NewInt(0).Exp(g_a, b, dh_prime)
 
